@@ -148,7 +148,9 @@ def cases(tier, seed):
     out += res
     # end-to-end through jinns.solve (hooks H1 + H2)
     e2e = [c for k, c in enumerate(out) if k % (9 if q else 3) == 0]
-    out += [dict(c, mode="solve") for c in e2e]
+    # every second single-loss end-to-end run has a landscape that depends on the TRAINED parameter (the ranking flips at each iteration):
+    # the step of iteration i must rank with the parameters after the gradient step of iteration i
+    out += [dict(c, mode="solve", **({"pdep": True} if (j % 2 == 0 and not c.get("sys") and not c.get("het")) else {})) for j, c in enumerate(e2e)]
     return out
 
 
